@@ -1349,7 +1349,7 @@ def shrink_candidates(sc):
                 if "inject" in op:
                     c["ops"][i].pop("inject")
                 out.append(c)
-            if nreq <= 8:
+            if nreq <= 60:
                 for k in range(nreq):
                     c = copy.deepcopy(sc)
                     del c["ops"][i]["reqs"][k]
@@ -1393,6 +1393,30 @@ def shrink_candidates(sc):
             c = copy.deepcopy(sc)
             c["world"]["project"]["tags"] = [t for i, t in enumerate(tags) if i not in half]
             out.append(c)
+    # drop structure types no remaining tag (or kept type) refers to
+    types = sc["world"]["project"]["types"]
+    needed = set()
+
+    def need(tn):
+        if tn in types and tn not in needed:
+            needed.add(tn)
+            for m in types[tn]["members"]:
+                need(m["type"])
+    for t in tags:
+        if "type" in t:
+            need(t["type"])
+    if len(needed) < len(types):
+        c = copy.deepcopy(sc)
+        c["world"]["project"]["types"] = {k: v for k, v in types.items() if k in needed}
+        out.append(c)
+    # plainest controller: recent firmware, large connection accepted, one chassis
+    if sc["world"].get("layout") not in ("compact",) and sc["world"].get("layout") != "micro800":
+        c = copy.deepcopy(sc)
+        c["world"]["layout"] = "compact"
+        c["driver"]["path"] = "10.0.0.1"
+        for k in ("port", "names"):
+            c["world"].pop(k, None)
+        out.append(c)
     return out
 
 
